@@ -1,5 +1,5 @@
 From Coq Require Import ExtrOcamlBasic.
-From PV Require Import Runner.
+From PV Require Import Run.RState Runner.
 Extraction Language OCaml.
 Set Extraction Output Directory ".".
-Extraction "runner_core.ml" Runner.init Runner.step.
+Extraction "runner_core.ml" RState.init Runner.step.
